@@ -1,9 +1,9 @@
 ----------------------------- MODULE ExpiryMany -----------------------------
 (***************************************************************************)
 (* C13, "many instances per service": requirements over the counts a real  *)
-(* NamingActor reports in real time for three services that hold N silent  *)
-(* ephemeral HTTP instances each (3 N is more than the actor expires in    *)
-(* one sweep), five instances that keep heart-beating, one instance owned  *)
+(* NamingActor reports in real time for four services that hold N silent   *)
+(* ephemeral HTTP instances each (three of them already hold more than the *)
+(* actor expires in one sweep), five instances that keep heart-beating, one instance owned  *)
 (* by a gRPC connection and one persistent instance.  One observation per  *)
 (* service and phase:                                                      *)
 (*   after_health_timeout   the health time-out has passed for every       *)
